@@ -2,12 +2,13 @@
    Property theorems only: each is closed by `exact <lemma>`; Print Assumptions must report a closed term.
 
    What is proved here (all operations of Model/Session.v, every schema, every state or operation list) is the transaction
-   structure of the session model: which operations can change the committed database and what they make it.  The other half of
+   structure of the session model (which operations can change the committed database and what they make it) and the completeness
+   of a flush at the level of statuses.  The other half of
    the property - the rows a successful commit writes are the objects, values and links the program holds - is NOT proved: it is
    checked on generated histories against the logical reference state of tools/session_spec.py (on the implementation) and
    refuted for two known defects (Findings/C09.v).  Stage 1 schema space of DESIGN Appendix A. *)
 Require Import PonyV.Model.SessionBase PonyV.Model.SessionDb PonyV.Model.Session.
-Require Import PonyV.Proofs.SessionDbPd PonyV.Proofs.SessionTxn.
+Require Import PonyV.Proofs.SessionDbPd PonyV.Proofs.SessionTxn PonyV.Proofs.SessionQueue.
 
 (* changes made after the last commit are never published by anything but a commit (or leaving the db_session, which commits):
    every other operation - including rollback, failing operations and every read with its auto-flush - leaves the committed database alone *)
@@ -48,6 +49,15 @@ Theorem C09_commit_publishes_transaction : forall sch s, s_declined s = false ->
   exists s1 u, flush sch s = Ok s1 u /\ s_db (fst (commit_op sch s)) = s_db s1.
 Proof. exact commit_publishes_transaction. Qed.
 Print Assumptions C09_commit_publishes_transaction.
+
+(* flush completeness at the level of statuses: from a state in which every object that has something to save (status created /
+   modified / marked_to_delete) sits in objects_to_save at its _save_pos_ (Jq), a flush that succeeds leaves no such object:
+   each was inserted / updated / deleted (principals first), none was skipped.  Jq itself is checked on the implementation after
+   every operation (oracle queue-not-queued; violated at the known dirty sites), it is not proved for all histories. *)
+Theorem C09_flush_saves_every_queued_object : forall sch s s' u, Jq s -> flush sch s = Ok s' u -> s_modified s = true ->
+  forall o ob, get_obj s' o = Some ob -> pending (o_st ob) = false.
+Proof. exact flush_saves_every_queued_object. Qed.
+Print Assumptions C09_flush_saves_every_queued_object.
 
 (* non-vacuity: create, commit, update + delete + create, roll back, update, commit: the committed rows are those of the two commits *)
 Example C09_nonvacuous :
